@@ -6,13 +6,20 @@ sys.path.insert(0, os.path.join(os.path.dirname(os.path.abspath(__file__)), ".."
 import facts
 names = set()
 sigs = {}
+recs = {}
+globs = {}
 for cfg in ("pinned", "malloc", "mmap", "ucontext", "debug"):
     d, m = facts.generate(cfg, siblings=True)
     for u in m["units"]:
+        for g in json.load(open(os.path.join(d, u["json"])))["globals"]:
+            if g.get("def"):
+                globs.setdefault(g["name"], [os.path.relpath(g["file"], facts.REPO), g.get("t")])
+        for r in json.load(open(os.path.join(d, u["json"])))["records"]:
+            recs.setdefault(r["name"], [[f["name"], f.get("t"), f.get("off_bits")] for f in r["fields"]])
         for fd in json.load(open(os.path.join(d, u["json"])))["functions"]:
             names.add(fd["name"])
             rel = os.path.relpath(fd["file"], facts.REPO)
             sigs.setdefault(fd["name"], [rel, fd.get("ret"), [p["t"] for p in fd["params"]], bool(fd.get("static")), [p["name"] for p in fd["params"]]])
 out = os.path.join(os.path.dirname(os.path.abspath(__file__)), "..", "lib", "census.json")
-json.dump({"comment": "names of the library functions at the reference tree; see lib/inline.py", "functions": sorted(names), "signatures": sigs}, open(out, "w"), indent=0)
+json.dump({"comment": "names of the library functions at the reference tree; see lib/inline.py", "functions": sorted(names), "signatures": sigs, "records": recs, "globals": globs}, open(out, "w"), indent=0)
 print(len(names), "functions")
